@@ -80,6 +80,8 @@ type Interp struct {
 	// Models of library functions: name -> implementation.
 	Models map[string]func(in *Interp, args []Val) (Val, error)
 	depth  int
+	// BothReject counts data-dependent branches whose two sides can only reject.
+	BothReject int
 }
 
 func New(prog *ssa.Program, wordBits int) *Interp {
@@ -542,7 +544,9 @@ func (in *Interp) symbolicBranch(fr *frame, blk *ssa.BasicBlock, ifi *ssa.If, p 
 		in.Cons = append(in.Cons, Constraint{P: p, Want: true, Pos: ifi.Cond.Pos(), Exit: describeExit(blk.Succs[1])})
 		return blk.Succs[0], nil
 	case r0 && r1:
-		in.fail("both sides of a data-dependent branch reject at %s", in.pos(ifi.Cond.Pos()))
+		// the whole continuation rejects: follow either side, nothing to record
+		in.BothReject++
+		return blk.Succs[1], nil
 	}
 	// gate: both sides rejoin at a common block through straight-line, effect-free code
 	chain := func(s *ssa.BasicBlock) ([]*ssa.BasicBlock, *ssa.BasicBlock) {
@@ -1043,6 +1047,22 @@ func symbolicCompare(op token.Token, a, b *BV) (Val, bool) {
 		}
 		return lo, hi, true
 	}
+	// exact comparator circuit when one side is constant and the comparison is unsigned
+	if !a.Signed && !b.Signed {
+		if cb, ok := b.Const(); ok {
+			gt, ge := ugtConst(a, cb), ugeConst(a, cb)
+			switch op {
+			case token.GTR:
+				return &BV{Bits: []Poly{gt}}, true
+			case token.GEQ:
+				return &BV{Bits: []Poly{ge}}, true
+			case token.LSS:
+				return &BV{Bits: []Poly{Not(ge)}}, true
+			case token.LEQ:
+				return &BV{Bits: []Poly{Not(gt)}}, true
+			}
+		}
+	}
 	alo, ahi, ok1 := rng(a)
 	blo, bhi, ok2 := rng(b)
 	if !ok1 || !ok2 {
@@ -1080,6 +1100,34 @@ func symbolicCompare(op token.Token, a, b *BV) (Val, bool) {
 		}
 	}
 	return nil, false
+}
+
+// ugtConst is the ANF of (x > c) for unsigned x.
+func ugtConst(x *BV, c uint64) Poly {
+	gt := Zero()
+	for i := 0; i < x.W(); i++ {
+		ci := i < 64 && c>>uint(i)&1 == 1
+		if ci {
+			gt = And(x.Bits[i], gt)
+		} else {
+			gt = Or(x.Bits[i], gt)
+		}
+	}
+	return gt
+}
+
+// ugeConst is the ANF of (x >= c) for unsigned x.
+func ugeConst(x *BV, c uint64) Poly {
+	ge := One()
+	for i := 0; i < x.W(); i++ {
+		ci := i < 64 && c>>uint(i)&1 == 1
+		if ci {
+			ge = And(x.Bits[i], ge)
+		} else {
+			ge = Or(x.Bits[i], ge)
+		}
+	}
+	return ge
 }
 
 func isShift(op token.Token) bool { return op == token.SHL || op == token.SHR }
